@@ -92,7 +92,7 @@ def check_case(case, ctx):
         ctx.count('levels_wide', sum(1 for w in widths if w >= 2))
         ctx.hit('level_widths', str(min(max(widths), 64)))
         WC.simulate(r, ref)
-        ref_s, ref_c = np.asarray(ref.s).copy(), np.asarray(ref.c).copy()
+        ref_s, ref_c = np.asarray(ref.s).copy(), np.asarray(ref.c)[:int(ref.c_len)].copy()      # rows below c_len are signal memory; buffers may be padded
 
         # ---- sanitizer: race detector + ownership on cpu and mock-gpu kernels ---------------------
         for cls, mode in (('cpu', 'default'), ('cuda', 'default'), ('cuda', 'random')):
@@ -138,10 +138,10 @@ def check_case(case, ctx):
                 ctx.violation('schedule-permutation', f'{cls} thread order {mode}: results differ after permuting the operations inside the published levels; '
                               f'reuse={case["c_reuse"]} strip={case["strip_forks"]} caps={case["caps"]}; {G.net_text(net)[:300]}', case)
                 return
-            if not case['c_reuse'] and not np.array_equal(np.asarray(sim.c), ref_c):
+            if not case['c_reuse'] and not np.array_equal(np.asarray(sim.c)[:int(sim.c_len)], ref_c):
                 # the scratch slot is excluded: its content depends on which output-less cell ran last
                 lo, cap = int(ref.c_locs[ref.tmp_idx]), int(ref.c_caps[ref.tmp_idx])
-                a, b2 = np.asarray(sim.c).copy(), ref_c.copy()
+                a, b2 = np.asarray(sim.c)[:int(sim.c_len)].copy(), ref_c.copy()
                 a[lo:lo + cap] = 0
                 b2[lo:lo + cap] = 0
                 if not np.array_equal(a, b2):
